@@ -52,6 +52,8 @@ type FuncContract struct {
 	Loops     map[int]*LoopContract
 	Callbacks []*CallbackSpec
 	ForkJoin  string
+	Footprint [2]Expr // half-open interval of element indices a forked worker may touch
+	FootprintSrc string
 	Props     []string
 	Ghost     []string
 	Opaque    bool
@@ -94,7 +96,7 @@ var clauseKeywords = map[string]bool{
 	"func": true, "lemma": true, "spec": true, "returns": true, "requires": true, "ensures": true,
 	"invariant": true, "decreases": true, "modifies": true, "pure": true, "loop": true, "callback": true,
 	"panics": true, "forkjoin": true, "trusted": true, "nopanic": true, "axiom": true, "props": true,
-	"package": true, "ghost": true, "using": true, "opaque": true,
+	"package": true, "ghost": true, "using": true, "opaque": true, "footprint": true,
 }
 
 var labelRe = regexp.MustCompile(`^([A-Za-z_][A-Za-z0-9_.]*):(?:[^:]|$)`)
@@ -309,6 +311,21 @@ func (cs *Contracts) loadFile(path, pkg string) error {
 				return fail("trusted outside func")
 			}
 			curF.Trusted = true
+		case "footprint":
+			if curF == nil {
+				return fail("footprint outside func")
+			}
+			parts := strings.SplitN(rc.text, "..", 2)
+			if len(parts) != 2 {
+				return fail("footprint: expected 'lo .. hi'")
+			}
+			lo, err1 := parseSpec(parts[0])
+			hi, err2 := parseSpec(parts[1])
+			if err1 != nil || err2 != nil {
+				return fail("footprint: %v %v", err1, err2)
+			}
+			curF.Footprint = [2]Expr{lo, hi}
+			curF.FootprintSrc = rc.text
 		case "forkjoin":
 			if curF == nil {
 				return fail("forkjoin outside func")
